@@ -114,7 +114,7 @@ def c04_runs(tier):
     r += per_method('fullpair', [0, 2] if q else [0, 1, 2, 3], ['timer.handler-ran'], K=0, T=2, R=2, acts=A_TIMER,
                     A=1, L=1, symtruth=0, symtime=1)
     # interrupted waits: part of the timeout has elapsed when EINTR comes back
-    r += per_method('eintr', [0, 1] if q else [0, 1, 2, 3], ['timer.handler-ran', 'env.eintr-injected'], K=1, T=1, R=4,
+    r += per_method('eintr', [0, 1, 2, 3], ['timer.handler-ran', 'env.eintr-injected'], K=1, T=1, R=4,
                     acts=0, A=0, L=0, symtruth=0, symtime=2, patterns=1, faults=2, eintr=2)
     # the earliest expiry the loop sleeps on is the root of the timer store: its order invariant
     for N in (7, 8):
@@ -376,7 +376,7 @@ def c15_runs(tier):
     for m in range(4):
         r += per_method('eintr.fd', [m], fdcov, K=1 if q else 2, R=2, acts=A_UNREG | A_SETH, A=1, L=1, symtruth=1,
                         patterns=2, faults=2, eintr=1 if q else 2)
-    r += per_method('eintr.timers', [0, 3] if q else [0, 1, 2, 3], ['timer.handler-ran', 'env.eintr-injected'],
+    r += per_method('eintr.timers', [0, 1, 2, 3], ['timer.handler-ran', 'env.eintr-injected'],
                     K=1, T=1, R=4, acts=A_TIMER, A=1, L=1, symtruth=0, symtime=2, patterns=1, faults=2, eintr=1)
     r += per_method('eintr.tasks', [1], ['task.handler-ran', 'env.eintr-injected'], K=1, T=0, J=2, R=3, acts=A_TASK,
                     A=1, L=2, symtruth=0, patterns=1, faults=2, eintr=1)
@@ -425,6 +425,10 @@ def c14_runs(tier):
     sig = [x for x in c10_runs(tier, hb=1) if x['name'] in ('two-threads', 'one-thread.I2')]
     sig += [x for x in c11_runs(tier, hb=1) if x['name'] == 'spawn+kill']
     sig += [x for x in work_runs(tier, hb=1) if x['name'] != 'null-pool']
+    q = tier == 'quick'
+    for m, nm in ((1, 'epoll'), (0, 'epoll-timerfd'), (3, 'poll')):
+        sig.append(mt_run('loops.' + nm, 'harness/loops_mt.c', ['loops.concurrent-init-run-deinit'],
+                          preempt=2 if q else 3, threads=2, rounds=1 if q else 2, method=m))
     for x in c08_runs(tier, hb=1) + c09_runs(tier, hb=1) + sig:
         x = dict(x)
         x['name'] = 'race.' + x['name']
